@@ -96,11 +96,20 @@ func drawStream(t *rapid.T) cli.StreamDef {
 	shape := func(pl *cli.PlaylistDef, label string) {
 		for s := 0; s < nSeg; s++ {
 			var sg cli.SegShape
+			manyFrags := sd.Container == "fmp4" && rapid.IntRange(0, 5).Draw(t, label+"manyFrags") == 0
 			for ti := range pl.Tracks {
 				nf := rapid.IntRange(1, 3).Draw(t, label+"nfrag")
+				if manyFrags {
+					// CMAF-chunk style: many fragments of one sample each
+					nf = rapid.IntRange(4, 8).Draw(t, label+"nfragMany")
+				}
 				var fr []int
 				for k := 0; k < nf; k++ {
-					fr = append(fr, rapid.IntRange(1, 3).Draw(t, label+"nsamp"))
+					n := rapid.IntRange(1, 3).Draw(t, label+"nsamp")
+					if manyFrags {
+						n = 1
+					}
+					fr = append(fr, n)
 				}
 				_ = ti
 				sg.Frags = append(sg.Frags, fr)
